@@ -580,7 +580,7 @@ func (f *FlowResult) taint() {
 			}
 		}
 		for _, a := range accByInstr[i] {
-			if a.Mem.Base != "" && st[a.Mem.Base] {
+			if (a.Mem.Base != "" && st[a.Mem.Base]) || (a.Mem.Index != "" && st[a.Mem.Index]) {
 				f.TaintedAddr = append(f.TaintedAddr, a)
 			}
 			if a.Mem.MaskReg != "" && st[a.Mem.MaskReg] {
